@@ -61,7 +61,10 @@ class Rng:
     """one PRNG state per run (splitmix64); every random choice of a check comes from it"""
 
     def __init__(self, seed):
-        self.s = (seed * 0x9E3779B97F4A7C15 + 0x1234567) & 0xFFFFFFFFFFFFFFFF
+        # the state is a HASH of the seed: with `seed * G + c` the streams of seeds n and n+1 are the same stream
+        # shifted by one draw (the step is G), so that a sweep over seeds explored almost nothing new
+        import hashlib
+        self.s = int.from_bytes(hashlib.sha256(b"gold-verif-seed-%d" % int(seed)).digest()[:8], "big")
 
     def next(self):
         self.s = (self.s + 0x9E3779B97F4A7C15) & 0xFFFFFFFFFFFFFFFF
